@@ -65,6 +65,8 @@ def simp(e):
         return e
     if op == 'real':
         return a[0]
+    if op == 'int' and a[0][0] == 'op' and a[0][1] in ('nint', 'int'):
+        return a[0]
     if op == '-' and len(a) == 2:
         # a - c  ->  a + (-c) for literal c so that index arithmetic folds
         if a[1][0] == 'num':
